@@ -10,7 +10,7 @@ def run(ctx):
     tmo = 900 if T else 100
     obs = [
         Ob('redact', 'ob_redact', 'p: str, s: str, v: str', packed=[('vkind', 6), ('pad', 5)], pre=['len(p) <= 2', 'len(s) <= 2', 'len(v) <= 2', 'all(c in "ab_<" for c in p + s + v)'],
-           cells=[('kind%d_pad%d_p%d_s%d' % (k, pd, a, b), [{'vkind': k, 'pad': pd}, 'len(p) == %d' % a, 'len(s) == %d' % b]) for k in range(6) for pd in range(5) for a in range(3) for b in range(3) if (T or pd == 0 or (k == 0 and a + b <= 2))],
+           cells=[('kind%d_pad%d_p%d_s%d' % (k, pd, a, b), [{'vkind': k, 'pad': pd}, 'len(p) == %d' % a, 'len(s) == %d' % b] + (['len(v) == 0'] if pd % 2 else [])) for k in range(6) for pd in range(5) for a in range(3) for b in range(3) if (T or pd == 0 or (k == 0 and a + b <= 1))],
            timeout=tmo, twin_fn='tw_redact', twin_pre=[{'vkind': 0, 'pad': 0}, 'len(p) == 1', 'len(s) == 1'],
            desc='get_resource_info: key = PAD + p + "secret" + s (symbolic p, s; PAD of 0/33/36/39/70 characters puts the word around the 40- and 70-character marks), value V+v+W as str / bytes / list / dict / object-with-that-repr / tuple: marker, and the value in no field'),
         Ob('visible', 'ob_visible', 'key: str, v: str', pre=['len(key) <= 5', 'len(v) <= 2', '"secret" not in key', 'all(c in "secrt<" for c in key)', 'all(c in "a<\'" for c in v)'],
@@ -18,8 +18,8 @@ def run(ctx):
            desc='a key that does not contain "secret" keeps its (truncated) repr'),
         Ob('mw_key', 'ob_mw_key', 'k: str, named: bool', pre=['len(k) <= 3'], cells=[('len%d' % n, ['len(k) == %d' % n]) for n in range(4)], timeout=tmo,
            desc='get_mw_infos never shows a SignedCookieMiddleware signing key K+k+Z (symbolic k)'),
-        Ob('meta_page', 'ob_meta_page', '', packed=[('mount', 3), ('fail_mode', 5), ('name_i', 6), ('val_i', 10), ('plain_i', 5)],
-           cells=[('mount%d_fail%d_name%d' % (m, f, n), [{'mount': m, 'fail_mode': f, 'name_i': n}]) for m in range(3) for f in range(5) for n in range(6) if (T or (n < 3 and f < 4))],
+        Ob('meta_page', 'ob_meta_page', '', packed=[('mount', 3), ('fail_mode', 8), ('name_i', 6), ('val_i', 12), ('plain_i', 5)],
+           cells=[('mount%d_fail%d_name%d' % (m, f, n), [{'mount': m, 'fail_mode': f, 'name_i': n}]) for m in range(3) for f in range(8) for n in range(6) if (T or (n < 2 and (m == 0 or f < 2)) or (n == 3 and m == 0 and f == 0))],
            timeout=tmo, confirm='confirm_meta_page',
            desc='real host applications (7 route kinds incl. callable object, bound/static method, static files, embedded apps; SignedCookie middleware with a known key) '
                 'with a secret-named resource (6 name forms) holding the marker value in 10 shapes and a plain resource; meta mounted at /_meta/, at a deep prefix, and embedded '
